@@ -728,6 +728,20 @@ class Machine:
                 c = _copy.deepcopy(real)
             elif mech.startswith("pickle"):
                 c = _pickle.loads(_pickle.dumps(real, int(mech[6:])))
+            elif mech.startswith("xpickle"):
+                # through another interpreter with another hash seed
+                rep = restart_roundtrip(_pickle.dumps(real, int(mech[7:])),
+                                        int(mech[7:]))
+                if "error" in rep:
+                    raise RuntimeError("in the restarted interpreter: " +
+                                       rep["error"])
+                if core.tuplify(rep["canon"]) != core.tuplify(
+                        core.listify(before)):
+                    self.fail("restart-altered", "after a pickle round trip "
+                              "into an interpreter with another hash seed "
+                              "the container reads %r there, %r here" %
+                              (rep["canon"], before))
+                c = _pickle.loads(bytes.fromhex(rep["pickle"]))
             else:
                 raise ValueError(mech)
         except Exception as e:  # noqa: BLE001
@@ -744,6 +758,8 @@ class Machine:
             self.fail("copy-class", "%s returned %s for a %s" %
                       (mech, type(c).__name__, type(real).__name__))
         shallow = mech in ("method", "copy.copy")
+        if mech.startswith("xpickle"):
+            self.counts["xpickle"] = self.counts.get("xpickle", 0) + 1
         try:
             if shallow:
                 cm = MC(new_id, mc.cls, list(mc.items))
@@ -767,6 +783,33 @@ class Machine:
                 self.fail("copy-not-equal", "comparing the copy raised %r"
                           % (e,))
         return (lambda: None), ("ret", None)
+
+
+_RESTART = None
+
+
+def restart_roundtrip(data, proto):
+    """Send a pickle to the restart server (sim/restartserver.py)."""
+    global _RESTART
+    import json
+    import os
+    import subprocess
+    import sys
+    if _RESTART is None or _RESTART.poll() is not None:
+        env = dict(os.environ)
+        mine = int(env.get("PYTHONHASHSEED", "0") or 0)
+        env["PYTHONHASHSEED"] = str((mine + 7919) % 4294967295 or 1)
+        _RESTART = subprocess.Popen(
+            [sys.executable, "-B", os.path.join(core.VERIF, "sim",
+                                                "restartserver.py")],
+            stdin=subprocess.PIPE, stdout=subprocess.PIPE, text=True,
+            env=env)
+    _RESTART.stdin.write("%d %s\n" % (proto, data.hex()))
+    _RESTART.stdin.flush()
+    line = _RESTART.stdout.readline()
+    if not line:
+        raise RuntimeError("restart server died")
+    return json.loads(line)
 
 
 def run_ops(ops, check_level=2, machine_cls=Machine):
